@@ -285,7 +285,17 @@ func genCase(t *rapid.T) *Case {
 		if multi && gen.IntR(t, 0, 4, "othermethod") == 0 {
 			m = gen.Pick(t, methods, "reqmethod")
 		}
-		c.Reqs = append(c.Reqs, rt.Req{Method: m, Host: host, Path: path})
+		q := rt.Req{Method: m, Host: host, Path: path}
+		if gen.Chance(t, 1, 8, "rawbytes") {
+			// a target with bytes a client sent unescaped although net/url would escape them: the server keeps it verbatim in
+			// URL.RawPath, and that is the path every entry point routes on
+			segs := strings.Split(path, "/")
+			if k := gen.IntR(t, 1, max(len(segs)-1, 1), "rawat"); k < len(segs) && segs[k] != "" {
+				segs[k] = gen.Pick(t, []string{"{x}", "a|b", "a^", "\"q\"", "<a>", "a`b", "a\\b", "{", "}"}, "rawval")
+				q.Path, q.Escaped = strings.Join(segs, "/"), true
+			}
+		}
+		c.Reqs = append(c.Reqs, q)
 	}
 	return c
 }
